@@ -31,6 +31,7 @@ def check(ctx):
     ctx.rule = ("cells as in C06; well-conditioned random datasets (3x over-determined, design condition number < 1e8 checked with an independent dense design matrix); "
                 "relations: fit(a f1 + b f2), snapshot permutation across batch boundaries (batch sizes 1,2,5), duplication x2/x3, scaling s in {-2,0.5,3} for single orders, zero forces")
     sparse_relations(ctx, np.random.default_rng(ctx.seed + 41))
+    dtype_relations(ctx, np.random.default_rng(ctx.seed + 43))
     for cname, diag in solver_cells(ctx.quick):
         P = Prepared(cname, diag, rng)
         for orders in COMBOS:
@@ -160,3 +161,50 @@ def sparse_relations(ctx, rng, prefix="C13/oracle/sparse-data"):
                 ok, m, err = close(got, base, tol=1e-6)
                 if not ok:
                     ctx.fail("oracle", prefix, f"{P.sc['name']} orders {orders}: finite-displacement dataset (exact zeros, clamped atom, sign-definite columns): fc{m} changes by {err:.2e} (relative) with {name}", replay={**rep, "relation": name}, has_input=True)
+
+
+def dtype_relations(ctx, rng, prefix="C13/oracle/integer-displacements"):
+    """Displacements on an integer grid handed over with an INTEGER dtype (int64 / int32; forces float64), through the constructor
+    (which keeps the array as given) and through the solver classes directly: the fit is linear in the forces and equals the fit
+    of the same numbers typed float64 (R14-K2: forces cast to the displacement dtype, i.e. truncated)."""
+    from symfc.solvers import FCSolverO2, FCSolverO3, FCSolverO4
+
+    for cname, diag in [("mono_P", (2, 1, 1)), ("tri2_P1", (3, 1, 1))]:
+        P = Prepared(cname, diag, rng, shuffle=True)
+        for orders in ((2,), (3,), (2, 3)):
+            if not P.usable(orders):
+                continue
+            ncoef = sum(P.nb[m] for m in orders)
+            n = 3 * int(np.ceil(ncoef / (3 * P.N))) + 6
+            di = rng.integers(-3, 4, size=(n, P.N, 3))
+            X = dense_design(P.basis, orders, di.astype(float))
+            sv = np.linalg.svd(X, compute_uv=False)
+            if sv[-1] < 1e-3 * sv[0]:      # recovery through normal equations: cond^2 * 1e-16 must stay far below the tolerance
+                ctx.count("skipped-ill-conditioned")
+                continue
+            f1, f2 = rng.normal(size=(n, P.N, 3)), rng.normal(size=(n, P.N, 3))
+            a, b = 0.37, -1.9
+            for dt in (np.int64, np.int32):
+                d = np.ascontiguousarray(di.astype(dt))
+                routes = {"constructor": lambda ff: fit(P, orders, d, ff, 100)}
+                if len(orders) == 1:
+                    k = orders[0]
+                    cls = {2: FCSolverO2, 3: FCSolverO3, 4: FCSolverO4}[k]
+                    routes["solver class"] = lambda ff: {k: np.array(cls(P.basis[k], log_level=0).solve(d, ff).full_fc)}
+                for rname, run in routes.items():
+                    ctx.case({"cell": P.sc["name"], "orders": list(orders), "integer_displacements": np.dtype(dt).name, "route": rname, "n_snap": n}, nontrivial=True)
+                    ctx.count("integer-displacements")
+                    try:
+                        r1, r2, r12 = run(f1), run(f2), run(a * f1 + b * f2)
+                        ref = fit(P, orders, di.astype(float), f1, 100)
+                    except (np.linalg.LinAlgError, TypeError, ValueError) as e:
+                        ctx.count("integer-displacements-rejected")       # a loud rejection of integer arrays is not a violation
+                        continue
+                    rep = {**P.describe(), "orders": list(orders), "dtype": np.dtype(dt).name, "route": rname, "disps": di.tolist(), "f1": f1.tolist(), "f2": f2.tolist()}
+                    ok, m, err = close(r12, {q: a * r1[q] + b * r2[q] for q in r1}, tol=1e-6)
+                    if not ok:
+                        ctx.fail("oracle", prefix, f"{P.sc['name']} orders {orders}, displacements typed {np.dtype(dt).name} ({rname}): fit(a f1 + b f2) differs from a fit(f1) + b fit(f2) by {err:.2e} (relative, fc{m})", replay={**rep, "relation": "linearity"}, has_input=True)
+                        continue
+                    ok, m, err = close(r1, ref, tol=1e-6)
+                    if not ok:
+                        ctx.fail("oracle", prefix, f"{P.sc['name']} orders {orders}, displacements typed {np.dtype(dt).name} ({rname}): the fit differs by {err:.2e} (relative, fc{m}) from the fit of the same numbers typed float64", replay={**rep, "relation": "float64 twin"}, has_input=True)
